@@ -14,6 +14,20 @@
 //!    decoder normalises) are skipped and counted; a flipped length/count word whose new
 //!    value exceeds the whole encoding is classified as structure-changing without
 //!    decoding (it cannot be satisfied by the buffer);
+//!  * typed family (never goes through the decoder, so it reaches the values the wire
+//!    format cannot represent — predicate variants with EMPTY predicate code, C01's known
+//!    ambiguity class): predicate input X in {CoinPredicate, MessageCoinPredicate,
+//!    MessageDataPredicate} x predicate length {0,1,8,9} x predicate data length {0,3} x
+//!    message data length {0,5} (where applicable) with non-zero predicate_gas_used, placed
+//!    before [CoinSigned, Contract] inputs and [Change, Variable, Contract, Coin] outputs in
+//!    each of the six chargeable kinds (192 values): oracle items 1, 3, 4 on the value, and
+//!    34 single typed field mutations (predicate_gas_used := 0, 1, MAX through
+//!    `set_predicate_gas_used`; coin tx pointers; contract input utxo id / roots / tx
+//!    pointer; change amount; variable to/amount/asset; contract output roots; receipts
+//!    root; witness content / count — must keep the id; amount, owner/recipient, asset
+//!    id/nonce, predicate, predicate data, witness index, utxo id, contract id, change
+//!    to/asset, contract output input index, coin output amount, script gas limit — must
+//!    change it);
 //!  * thorough: the same sweep over the sub-product kind(6) × body(2) × input lists(57) ×
 //!    output lists(31) × witness lists {[], [5 bytes], [3, 8 bytes]} × policy sets {none,
 //!    all six small, all six max}, then the id formula and the cache checks (no sweep)
@@ -52,9 +66,15 @@ mod txcorpus;
 mod txlayout;
 
 use fuel_tx::{
+    field,
     Cacheable,
+    Input,
+    Output,
     Transaction,
+    TxPointer,
     UniqueIdentifier,
+    UtxoId,
+    Witness,
 };
 use fuel_types::{
     canonical::{
@@ -531,6 +551,319 @@ fn check_tx(level: CorpusLevel, idx: u64, sweep_chains: &[usize], acc: &mut Acc)
     r
 }
 
+
+// ------------------------------------------------------------------ typed family (no decoder)
+//
+// Values the decoder cannot produce (predicate variants with EMPTY predicate code, message
+// data variants with empty data — C01's known ambiguity class) never appear as kept mutants
+// of the byte sweep. This family reaches them, and every malleable field, through the typed
+// API only: a predicate input X (3 variants x predicate length {0,1,8,9} x predicate data
+// length {0,3} x message data length {0,5}) with NON-ZERO predicate_gas_used is placed in
+// front of [CoinSigned, Contract] inputs and [Change, Variable, Contract, Coin] outputs in
+// each chargeable kind; (1) the id formula on the value; (2) single typed field mutations.
+
+const FAM_PLEN: [usize; 4] = [0, 1, 8, 9];
+const FAM_PDLEN: [usize; 2] = [0, 3];
+const FAM_DLEN: [usize; 2] = [0, 5];
+const FAM_X: u64 = 3 * 4 * 2 * 2;
+
+fn inputs_of(tx: &mut Transaction) -> &mut Vec<Input> {
+    use field::Inputs as _;
+    match tx {
+        Transaction::Script(t) => t.inputs_mut(),
+        Transaction::Create(t) => t.inputs_mut(),
+        Transaction::Upgrade(t) => t.inputs_mut(),
+        Transaction::Upload(t) => t.inputs_mut(),
+        Transaction::Blob(t) => t.inputs_mut(),
+        Transaction::Mint(_) => panic!("mint has no inputs"),
+    }
+}
+
+fn outputs_of(tx: &mut Transaction) -> &mut Vec<Output> {
+    use field::Outputs as _;
+    match tx {
+        Transaction::Script(t) => t.outputs_mut(),
+        Transaction::Create(t) => t.outputs_mut(),
+        Transaction::Upgrade(t) => t.outputs_mut(),
+        Transaction::Upload(t) => t.outputs_mut(),
+        Transaction::Blob(t) => t.outputs_mut(),
+        Transaction::Mint(_) => panic!("mint has no outputs"),
+    }
+}
+
+fn witnesses_of(tx: &mut Transaction) -> &mut Vec<Witness> {
+    use field::Witnesses as _;
+    match tx {
+        Transaction::Script(t) => t.witnesses_mut(),
+        Transaction::Create(t) => t.witnesses_mut(),
+        Transaction::Upgrade(t) => t.witnesses_mut(),
+        Transaction::Upload(t) => t.witnesses_mut(),
+        Transaction::Blob(t) => t.witnesses_mut(),
+        Transaction::Mint(_) => panic!("mint has no witnesses"),
+    }
+}
+
+/// The family member (kind, x); `None` for index combinations that do not exist
+/// (message data length only applies to the message-data variant).
+fn family_tx(kind: usize, x: u64) -> Option<(Transaction, String)> {
+    let variant = (x % 3) as usize;
+    let plen = FAM_PLEN[((x / 3) % 4) as usize];
+    let pdlen = FAM_PDLEN[((x / 12) % 2) as usize];
+    let dsel = ((x / 24) % 2) as usize;
+    if variant != 2 && dsel != 0 {
+        return None
+    }
+    let dlen = FAM_DLEN[dsel];
+    let gas = txcorpus::word_pattern(0x77);
+    let id = |k: u8| txcorpus::id32(1, 0x30 + k);
+    let pred = txcorpus::bytes_of(plen, 0x31);
+    let pdata = txcorpus::bytes_of(pdlen, 0x32);
+    let data = txcorpus::bytes_of(dlen, 0x33);
+    let x_input = match variant {
+        0 => Input::coin_predicate(
+            UtxoId::new(id(0).into(), 2),
+            id(1).into(),
+            txcorpus::word_pattern(0x34),
+            id(2).into(),
+            TxPointer::new(9u32.into(), 4),
+            gas,
+            pred,
+            pdata,
+        ),
+        1 => Input::message_coin_predicate(id(3).into(), id(4).into(), txcorpus::word_pattern(0x35), id(5).into(), gas, pred, pdata),
+        _ => Input::message_data_predicate(id(3).into(), id(4).into(), txcorpus::word_pattern(0x35), id(5).into(), gas, data, pred, pdata),
+    };
+    // policies: all six small; one 5-byte witness; rich body
+    let b1 = txcorpus::base_points(kind)[1];
+    let mut tx = txcorpus::tx_build(kind, [b1[0], 0, 0, txcorpus::seq2_index(10, &[5]), b1[4]]);
+    *inputs_of(&mut tx) = vec![x_input, txcorpus::base_input(0, 1), txcorpus::base_input(2, 1)];
+    *outputs_of(&mut tx) = vec![
+        txcorpus::base_output(2, 0),
+        txcorpus::base_output(3, 0),
+        txcorpus::base_output(1, 1),
+        txcorpus::base_output(0, 1),
+    ];
+    let d = format!(
+        "{} with inputs [{} predicate.len={plen} predicate_data.len={pdlen}{} predicate_gas_used={gas:#x}, CoinSigned, Contract] outputs [Change, Variable, Contract, Coin] [typed family kind {kind} x {x}]",
+        txcorpus::TX_KINDS[kind],
+        txcorpus::INPUT_KINDS[[1, 4, 6][variant]],
+        if variant == 2 { format!(" data.len={dlen}") } else { String::new() },
+    );
+    Some((tx, d))
+}
+
+type Mutation = (String, bool, Box<dyn Fn(&mut Transaction)>);
+
+fn flip32<T: AsMut<[u8]>>(t: &mut T) {
+    t.as_mut()[31] ^= 0x01;
+}
+
+/// Single typed field mutations: (field class, malleable?, edit).
+fn family_mutations(tx: &Transaction) -> Vec<Mutation> {
+    let mut tx0 = tx.clone();
+    let xc = txlayout::input_class(&inputs_of(&mut tx0)[0]).to_string();
+    let mut v: Vec<Mutation> = Vec::new();
+    let mut add = |class: String, malleable: bool, f: Box<dyn Fn(&mut Transaction)>| v.push((class, malleable, f));
+    // X: predicate gas used through the public setter
+    for g in [0u64, 1, u64::MAX] {
+        add(format!("{xc}.predicateGasUsed"), true, Box::new(move |t| inputs_of(t)[0].set_predicate_gas_used(g)));
+    }
+    // X: committed neighbours and (coin) tx pointer
+    add(format!("{xc}.amount"), false, Box::new(|t| match &mut inputs_of(t)[0] {
+        Input::CoinPredicate(c) => c.amount ^= 1,
+        Input::MessageCoinPredicate(c) => c.amount ^= 1,
+        Input::MessageDataPredicate(c) => c.amount ^= 1,
+        _ => {}
+    }));
+    add(format!("{xc}.owner|recipient"), false, Box::new(|t| match &mut inputs_of(t)[0] {
+        Input::CoinPredicate(c) => flip32(&mut c.owner),
+        Input::MessageCoinPredicate(c) => flip32(&mut c.recipient),
+        Input::MessageDataPredicate(c) => flip32(&mut c.recipient),
+        _ => {}
+    }));
+    add(format!("{xc}.assetId|nonce"), false, Box::new(|t| match &mut inputs_of(t)[0] {
+        Input::CoinPredicate(c) => flip32(&mut c.asset_id),
+        Input::MessageCoinPredicate(c) => flip32(&mut c.nonce),
+        Input::MessageDataPredicate(c) => flip32(&mut c.nonce),
+        _ => {}
+    }));
+    add(format!("{xc}.predicate"), false, Box::new(|t| match &mut inputs_of(t)[0] {
+        Input::CoinPredicate(c) => c.predicate.iter_mut().take(1).for_each(|b| *b ^= 1),
+        Input::MessageCoinPredicate(c) => c.predicate.iter_mut().take(1).for_each(|b| *b ^= 1),
+        Input::MessageDataPredicate(c) => c.predicate.iter_mut().take(1).for_each(|b| *b ^= 1),
+        _ => {}
+    }));
+    add(format!("{xc}.predicateData"), false, Box::new(|t| match &mut inputs_of(t)[0] {
+        Input::CoinPredicate(c) => c.predicate_data.iter_mut().take(1).for_each(|b| *b ^= 1),
+        Input::MessageCoinPredicate(c) => c.predicate_data.iter_mut().take(1).for_each(|b| *b ^= 1),
+        Input::MessageDataPredicate(c) => c.predicate_data.iter_mut().take(1).for_each(|b| *b ^= 1),
+        _ => {}
+    }));
+    add(format!("{xc}.txPointer"), true, Box::new(|t| {
+        if let Input::CoinPredicate(c) = &mut inputs_of(t)[0] {
+            c.tx_pointer = TxPointer::new(77u32.into(), 7);
+        }
+    }));
+    // CoinSigned
+    add("Input::CoinSigned.txPointer".into(), true, Box::new(|t| {
+        if let Input::CoinSigned(c) = &mut inputs_of(t)[1] {
+            c.tx_pointer = TxPointer::new(78u32.into(), 8);
+        }
+    }));
+    add("Input::CoinSigned.witnessIndex".into(), false, Box::new(|t| {
+        if let Input::CoinSigned(c) = &mut inputs_of(t)[1] {
+            c.witness_index ^= 1;
+        }
+    }));
+    add("Input::CoinSigned.utxoId".into(), false, Box::new(|t| {
+        if let Input::CoinSigned(c) = &mut inputs_of(t)[1] {
+            c.utxo_id = UtxoId::new([0x5a; 32].into(), 9);
+        }
+    }));
+    // Contract input
+    add("Input::Contract.utxoId".into(), true, Box::new(|t| {
+        if let Input::Contract(c) = &mut inputs_of(t)[2] {
+            c.utxo_id = UtxoId::new([0x5b; 32].into(), 10);
+        }
+    }));
+    add("Input::Contract.balanceRoot".into(), true, Box::new(|t| {
+        if let Input::Contract(c) = &mut inputs_of(t)[2] {
+            flip32(&mut c.balance_root);
+        }
+    }));
+    add("Input::Contract.stateRoot".into(), true, Box::new(|t| {
+        if let Input::Contract(c) = &mut inputs_of(t)[2] {
+            flip32(&mut c.state_root);
+        }
+    }));
+    add("Input::Contract.txPointer".into(), true, Box::new(|t| {
+        if let Input::Contract(c) = &mut inputs_of(t)[2] {
+            c.tx_pointer = TxPointer::new(79u32.into(), 9);
+        }
+    }));
+    add("Input::Contract.contractId".into(), false, Box::new(|t| {
+        if let Input::Contract(c) = &mut inputs_of(t)[2] {
+            flip32(&mut c.contract_id);
+        }
+    }));
+    // outputs
+    add("Output::Change.amount".into(), true, Box::new(|t| {
+        if let Output::Change { amount, .. } = &mut outputs_of(t)[0] {
+            *amount ^= 1;
+        }
+    }));
+    add("Output::Change.to".into(), false, Box::new(|t| {
+        if let Output::Change { to, .. } = &mut outputs_of(t)[0] {
+            flip32(to);
+        }
+    }));
+    add("Output::Change.assetId".into(), false, Box::new(|t| {
+        if let Output::Change { asset_id, .. } = &mut outputs_of(t)[0] {
+            flip32(asset_id);
+        }
+    }));
+    add("Output::Variable.to".into(), true, Box::new(|t| {
+        if let Output::Variable { to, .. } = &mut outputs_of(t)[1] {
+            flip32(to);
+        }
+    }));
+    add("Output::Variable.amount".into(), true, Box::new(|t| {
+        if let Output::Variable { amount, .. } = &mut outputs_of(t)[1] {
+            *amount ^= 1;
+        }
+    }));
+    add("Output::Variable.assetId".into(), true, Box::new(|t| {
+        if let Output::Variable { asset_id, .. } = &mut outputs_of(t)[1] {
+            flip32(asset_id);
+        }
+    }));
+    add("Output::Contract.balanceRoot".into(), true, Box::new(|t| {
+        if let Output::Contract(c) = &mut outputs_of(t)[2] {
+            flip32(&mut c.balance_root);
+        }
+    }));
+    add("Output::Contract.stateRoot".into(), true, Box::new(|t| {
+        if let Output::Contract(c) = &mut outputs_of(t)[2] {
+            flip32(&mut c.state_root);
+        }
+    }));
+    add("Output::Contract.inputIndex".into(), false, Box::new(|t| {
+        if let Output::Contract(c) = &mut outputs_of(t)[2] {
+            c.input_index ^= 1;
+        }
+    }));
+    add("Output::Coin.amount".into(), false, Box::new(|t| {
+        if let Output::Coin { amount, .. } = &mut outputs_of(t)[3] {
+            *amount ^= 1;
+        }
+    }));
+    // script body
+    add("Script.receiptsRoot".into(), true, Box::new(|t| {
+        if let Transaction::Script(s) = t {
+            flip32(field::ReceiptsRoot::receipts_root_mut(s));
+        }
+    }));
+    add("Script.scriptGasLimit".into(), false, Box::new(|t| {
+        if let Transaction::Script(s) = t {
+            *field::ScriptGasLimit::script_gas_limit_mut(s) ^= 1;
+        }
+    }));
+    // witnesses
+    add("Witness.data".into(), true, Box::new(|t| {
+        if let Some(w) = witnesses_of(t).first_mut() {
+            w.as_vec_mut()[0] ^= 1;
+        }
+    }));
+    add("witnesses(push)".into(), true, Box::new(|t| witnesses_of(t).push(vec![1u8, 2, 3].into())));
+    v
+}
+
+fn check_family(kind: usize, x: u64, acc: &mut Acc) {
+    let Some((tx, d)) = family_tx(kind, x) else { return };
+    let case = json!({"family": "typed", "kind": kind, "x": x});
+    // (1) formula, chain ids, cache — on the value itself, no decoder
+    let Some(base) = check_value(&tx, &d, &case, &[], acc) else { return };
+    acc.outcome("typed_family_value_checked");
+    // (2) single typed field mutations
+    let bytes = tx.to_bytes();
+    for (class, malleable, edit) in family_mutations(&tx) {
+        let mut t2 = tx.clone();
+        if guard::catch_any(std::panic::AssertUnwindSafe(|| edit(&mut t2))).is_err() {
+            continue
+        }
+        if t2.to_bytes() == bytes {
+            acc.outcome("typed_mutation_not_applicable_(value_unchanged)");
+            continue
+        }
+        for (ci, chain) in CHAINS.iter().enumerate() {
+            acc.evals += 1;
+            let Ok(id2) = get_id(&t2, *chain) else { continue };
+            let same = id2 == base.ids[ci];
+            if same == malleable {
+                acc.outcome(if same { "typed_mutation_of_malleable_field_keeps_id" } else { "typed_mutation_of_committed_field_changes_id" });
+                acc.fps.insert(hash64(&("typed", &class, malleable, txcorpus::TX_KINDS[kind])));
+                continue
+            }
+            let key = if class.starts_with("Witness") || class.starts_with("witnesses") {
+                "C03:Chargeable:witnesses-not-removed".to_string()
+            } else {
+                format!("C03:{class}:{}", if malleable { V_MALLEABLE } else { V_COMMITTED })
+            };
+            acc.outcome("VIOLATION_typed_mutation");
+            acc.viol(
+                key,
+                &|| format!(
+                    "changing {class} through the typed API {} the id (chain {chain}): {} -> {}; {d}",
+                    if same { "does not change" } else { "changes" },
+                    h(&base.ids[ci]),
+                    h(&id2)
+                ),
+                &case,
+            );
+        }
+    }
+}
+
 // ------------------------------------------------------------------ driver
 
 fn policy_segments() -> Vec<u64> {
@@ -612,6 +945,23 @@ fn explore(ctx: &Ctx) {
         json!({"count": star_n, "kinds": txcorpus::TX_KINDS, "plus": "Mint", "dims": txcorpus::DIM_NAMES,
                "dim_sizes_per_kind": (0..6).map(txcorpus::tx_dims).collect::<Vec<_>>(),
                "sweep": "every byte x 2 flips x 4 chain ids"}),
+    );
+
+    // ---- A2. typed family (values the decoder cannot produce; typed single-field mutations)
+    space::par_chunks(
+        6 * FAM_X,
+        8,
+        Acc::default,
+        |j, acc| check_family((j / FAM_X) as usize, j % FAM_X, acc),
+        |acc| acc.flush(ctx, &classes),
+    );
+    ctx.set(
+        "typed_family",
+        json!({"kinds": txcorpus::TX_KINDS, "x_variants": ["CoinPredicate", "MessageCoinPredicate", "MessageDataPredicate"],
+               "predicate_len": FAM_PLEN, "predicate_data_len": FAM_PDLEN, "message_data_len": FAM_DLEN,
+               "members": 6 * 32, "predicate_gas_used": "pattern (non-zero)",
+               "per_member": "id formula x 4 chain ids + cache + 34 single typed field mutations x 4 chain ids",
+               "goes_through_decoder": false}),
     );
 
     // ---- B. thorough: sub-product with sweep
@@ -724,6 +1074,11 @@ fn explore(ctx: &Ctx) {
 
 fn replay(case: &Value, ctx: &Ctx) {
     let mut acc = Acc::default();
+    if case["family"].as_str() == Some("typed") {
+        check_family(case["kind"].as_u64().expect("kind") as usize, case["x"].as_u64().expect("x"), &mut acc);
+        acc.flush(ctx, &Mutex::new(BTreeMap::new()));
+        return
+    }
     let level = CorpusLevel::from_name(case["level"].as_str().unwrap_or("Star"));
     let idx = case["idx"].as_u64().expect("idx");
     check_tx(level, idx, &[0, 1, 2, 3], &mut acc);
